@@ -616,3 +616,33 @@ Fixpoint check_hist (cfg : config) (first0 : bool) (h : list event) {struct h} :
    checked from offset 0 when StartOffset = FirstOffset *)
 Definition C03_holds (cfg : config) (h : list event) : bool :=
   check_hist cfg (Z.eqb (cfg_start cfg) FirstOffset) h.
+
+(* the resolved start offset of the oldest partition reader of t in the history *)
+Fixpoint first_start (h : list event) (t : tp) {struct h} : option Z :=
+  match h with
+  | [] => None
+  | e :: rest =>
+    match first_start rest t with
+    | Some x => Some x
+    | None => match e with
+              | EvReaderInit _ _ t' _ res => if tp_eqb t t' then Some res else None
+              | _ => None
+              end
+    end
+  end.
+
+(* some acknowledged commit covers a record at or after the first start offset that was
+   never delivered before (possible with StartOffset = LastOffset) *)
+Fixpoint lost_b (h : list event) {struct h} : bool :=
+  match h with
+  | [] => false
+  | e :: rest =>
+    ((match e with
+      | EvOffsetCommit _ _ _ offs 0 true =>
+        existsb (fun kv => match first_start rest (fst kv) with
+                           | Some f => negb (range_delivered_b rest (fst kv) f (Z.to_nat (snd kv - f)))
+                           | None => false
+                           end) offs
+      | _ => false
+      end) || lost_b rest)%bool
+  end.
